@@ -55,6 +55,7 @@ func init() {
 				{Scenario: "c08_rollback", Params: mustJSON(RollbackParams{Fail: "failoverlog-silent"}), Bound: 0, Shards: 2, Note: "the failover-log query is never answered"},
 				{Scenario: "c08_rollback", Params: mustJSON(RollbackParams{Fail: "reopen-silent"}), Bound: 0, Shards: 2, Note: "the second stream request is never answered"},
 				{Scenario: "reopen_life", Params: mustJSON(LifeParams{Oracle: "tuple", Segs: 2, EarlySave: true}), Bound: 0, Shards: 8, Note: "a save BEFORE the branch changes and one after: the stored checkpoint carries the new branch's vbUUID"},
+				{Scenario: "c07_gate", Params: mustJSON(MitigationParams{Replicas: 1, TransientEnd: true, RollbackAtEnd: true}), Bound: 0, Shards: 8, Note: "rollback mitigation on (the default): a re-open answered with a rollback while the copies are quiet - every document above F is still shown"},
 				{Scenario: "c06_reopen", Params: mustJSON(struct{}{}), Bound: 0, Shards: 2, Note: "transient end, re-open answered with a rollback; mutations, deletions and expirations (small revision numbers) on the new branch"},
 				{Scenario: "reopen_life", Params: mustJSON(LifeParams{Oracle: "delivery", Segs: 2}), Bound: 0, Shards: 8, Note: "rollbacks answered to RE-opens of a running session, including a second rollback to the same position with no progress in between"},
 			}
@@ -159,6 +160,16 @@ func rollbackMain(p RollbackParams) {
 	high := F + 3
 	log = append(log, gocbcore.SimPacket{Kind: "marker", SnapStart: high + 1, SnapEnd: high + 1}, symbolPacket("SEQ", high+1))
 	c.Vb[0].Opens = []gocbcore.SimOpen{{Kind: "rollback", Rollback: R, SwapLog: log, SwapFailover: newFo}}
+	// the branch the re-opened stream reports (what offsets carry from then on): the newest entry of the log
+	// that comes WITH the answer to the second request
+	answeredUUID := newFo[0].VbUUID
+	if p.Fail == "" && vrt.Choose(2, true, "another-fail-over-before-the-second-request-is-answered") == 1 {
+		// the vBucket fails over once more between the fail-over-log query and the second stream request: the
+		// requested (vbUUID, R) is still part of the history, the stream comes back on an even newer branch
+		latest := append([]gocbcore.FailoverEntry{{VbUUID: 777, SeqNo: gocbcore.SeqNo(R)}}, newFo...)
+		c.Vb[0].Opens = append(c.Vb[0].Opens, gocbcore.SimOpen{Kind: "ok", SwapFailover: latest})
+		answeredUUID = 777
+	}
 	switch p.Fail {
 	case "failoverlog":
 		c.Fault = func(r *gocbcore.SimRequest) gocbcore.SimAnswer {
@@ -230,8 +241,8 @@ func rollbackMain(p RollbackParams) {
 		if d.Seq <= F {
 			vrt.Failf("%s: event seq %d (at or below the checkpointed position %d) was shown again", desc, d.Seq, F)
 		}
-		if d.Offset.VbUUID != newFo[0].VbUUID {
-			vrt.Failf("%s: event seq %d carries vbUUID %d, the reopened stream is on branch %d", desc, d.Seq, d.Offset.VbUUID, newFo[0].VbUUID)
+		if d.Offset.VbUUID != answeredUUID {
+			vrt.Failf("%s: event seq %d carries vbUUID %d, the reopened stream is on branch %d (newest entry of the fail-over log that came with the answer)", desc, d.Seq, d.Offset.VbUUID, answeredUUID)
 		}
 		if d.Key != fmt.Sprintf("new%d", d.Seq) {
 			vrt.Failf("%s: event seq %d has key %q (old branch content)", desc, d.Seq, d.Key)
@@ -252,7 +263,7 @@ func rollbackMain(p RollbackParams) {
 	}
 	// positions issued from now on are on the new branch
 	if offs, _, _ := e.Stream.GetOffsets(); true {
-		if o0, ok := offs.Load(0); ok && o0.SeqNo > F && o0.VbUUID != newFo[0].VbUUID {
+		if o0, ok := offs.Load(0); ok && o0.SeqNo > F && o0.VbUUID != answeredUUID {
 			vrt.Failf("%s: tracked offset after the rollback carries vbUUID %d", desc, o0.VbUUID)
 		}
 	}
